@@ -96,6 +96,22 @@ class C09(PropBase):
                 dg = {"nodes": g["nodes"] + [("T", v) for v in tr], "dir": g["dir"] + [[("T", v), v] for v in tr], "bid": g["bid"]}
                 topo = rand_topo(rng, dg)
                 doms.append({"transport": tr, "policy": pol, "topo": [t if not isinstance(t, tuple) else ["T", t[1]] for t in topo]})
+            if rng.random() < 0.2 and len(g["nodes"]) >= 4:
+                # nested interventions along a chain: {Y_{x1,x2} = y, W_{x2} = w} with x1 -> x2 -> w -> y
+                order = list(g["nodes"]); rng.shuffle(order)
+                x1, x2, w, y = order[0], order[1], order[2], order[-1]
+                g["dir"] = [e for e in g["dir"] if order.index(e[0]) < order.index(e[1])] + [e for e in ([x1, x2], [x2, w], [w, y]) if e not in g["dir"]]
+                if rng.random() < 0.5 and [x1, y] not in g["dir"]:
+                    g["dir"].append([x1, y])
+                g["bid"] = [e for e in g["bid"] if rng.random() < 0.5]
+                b1, b2 = rng.random() < 0.3, rng.random() < 0.3
+                ev = [[{"k": "C", "n": Vn(y), "s": None, "i": sorted([[Vn(x1), b1], [Vn(x2), b2]])}, [Vn(y), rng.random() < 0.3]],
+                      [{"k": "C", "n": Vn(w), "s": None, "i": [[Vn(x2), b2]]}, [Vn(w), rng.random() < 0.3]]]
+                for d in doms:   # the diagrams were drawn for the old edge set
+                    dg = {"nodes": g["nodes"] + [("T", v) for v in d["transport"]], "dir": g["dir"] + [[("T", v), v] for v in d["transport"]], "bid": g["bid"]}
+                    d["topo"] = [t_ if not isinstance(t_, tuple) else ["T", t_[1]] for t_ in rand_topo(rng, dg)]
+                cases.append({"kind": "uncond", "g": g, "domains": doms, "event": ev})
+                continue
             if rng.random() < 0.6:
                 ev = []
                 for _ in range(rng.randint(1, 3)):
